@@ -329,7 +329,7 @@ func TestDifferentialRedis(t *testing.T) {
 	if _, _, err := redisBackend(); err != nil {
 		t.Fatalf("inconclusive: miniredis-backed Redis storage unavailable: %v", err)
 	}
-	vkit.Check(t, 400, 8000, func(t *rapid.T) {
+	vkit.Check(t, 400, 6000, func(t *rapid.T) {
 		n := rapid.IntRange(4, 40).Draw(t, "nops")
 		shadow := map[string]kstate{}
 		shortKeys := map[string]bool{}
